@@ -328,7 +328,9 @@ def explore(ctx, res, pid):
                 'well-formed, malformed, unknown or garbage; adapter outcome per request valid / wrong-typed / each library exception / other; close request (id 0 / other / '
                 'bad reason) last; chunking one / per-line / random; pool None, -3, 0, 1, 2, 3 (cpu 3); handler absent / returning each boolean pair; read EOF / error at each chunk '
                 'position, k-th write failing; Server.start on a scheduled thread with requests already readable; application close() once or twice; an adapter call blocked '
-                'until a later request was answered; PCT and uniform random schedules; every step replayed through Model/Shell.v; non-trivial = distinct (scenario, schedule)')
+                'until a later request was answered; injected I/O errors of six classes, a failing write leaving a fragment; PCT and uniform random schedules; every step replayed through Model/Shell.v; '
+                'the class of every line compared with Model/Classify.v; one run in forty with line-granular preemption (oracle only); corpus of earlier minimised failures first; '
+                'non-trivial = distinct (scenario, schedule)')
     shard = max(25, n // (nproc * 2))
     jobs = []
     k = 0
